@@ -69,8 +69,37 @@ let run_reporter () =
     done
   with End_of_file -> ()
 
+(* ---------------- config ---------------- *)
+let hex_list (l : char list list) : string =
+  String.concat "," (List.map (fun x -> let s = string_of_chars x in if s = "" then "." else hex_encode s) l)
+
+let run_config () =
+  try
+    while true do
+      let line = input_line stdin in
+      let env = ref [] and flags = ref [] in
+      List.iter (fun tok ->
+          let body = String.sub tok 2 (String.length tok - 2) in
+          match tok.[0] with
+          | 'E' -> let i = String.index body '=' in
+            let k = String.sub body 0 i and v = hex_decode (String.sub body (i + 1) (String.length body - i - 1)) in
+            (* os.Setenv: a later assignment of the same name replaces the earlier one *)
+            env := (chars_of_string k, chars_of_string v) :: List.filter (fun (k', _) -> k' <> chars_of_string k) !env
+          | 'F' -> let i = String.index body '=' in
+            let k = String.sub body 0 i and v = hex_decode (String.sub body (i + 1) (String.length body - i - 1)) in
+            flags := !flags @ [(chars_of_string k, Some (chars_of_string v))]
+          | 'B' -> flags := !flags @ [(chars_of_string body, None)]
+          | _ -> ()) (fields line);
+      (match x_cfg_resolve !flags !env with
+       | FlagError -> print_endline "FLAGERR"
+       | CfgOk c -> print_endline (Printf.sprintf "S=%d P=%s C=%s" (if c.scan_tests then 1 else 0)
+                                     (hex_list c.exclude_paths) (hex_list c.exclude_checks)))
+    done
+  with End_of_file -> ()
+
 let () =
   match Array.to_list Sys.argv with
   | _ :: "ignoreset" :: _ -> run_ignoreset ()
+  | _ :: "config" :: _ -> run_config ()
   | _ :: "reporter" :: _ -> run_reporter ()
   | _ -> prerr_endline "usage: modelrun <suite>"; exit 2
